@@ -159,12 +159,12 @@ func runResume(c *Case) (obs []CallObs, fatal string) {
 	if err != nil {
 		return nil, "compile: " + err.Error()
 	}
-	opts := make([][]compose.Option, len(c.Calls))
+	opts, err := buildAllOpts(c)
+	if err != nil {
+		return nil, err.Error()
+	}
 	for i, cl := range c.Calls {
-		o, err := buildOpts(cl)
-		if err != nil {
-			return nil, err.Error()
-		}
+		o := opts[i]
 		pos := 0
 		if cl.CpPos > 0 {
 			pos = cl.CpPos % (len(o) + 1)
@@ -295,7 +295,11 @@ func collectStep(c *Case, ci int, rec *recorder, class string) CallObs {
 		o.Ran = append(o.Ran, name)
 		switch nd.Kind {
 		case "comp", "relay":
-			o.Deliv = append(o.Deliv, PL{Path: p, Vals: append([]int{}, rec.deliv[name]...)})
+			vals := []int{}
+			for _, d := range rec.delivs[name] {
+				vals = append(vals, d...)
+			}
+			o.Deliv = append(o.Deliv, PL{Path: p, Vals: vals})
 			o.Fired = append(o.Fired, PL{Path: p, Vals: sortedCopy(rec.fired[name])})
 		case "sub":
 			o.Fired = append(o.Fired, PL{Path: p, Vals: sortedCopy(rec.fired[name])})
@@ -308,46 +312,18 @@ func collectStep(c *Case, ci int, rec *recorder, class string) CallObs {
 	return o
 }
 
-// coqStepForest: the tree unfolding of the forest (a shared graph is copied per use, so that
-// "executes in this call" is a property of the node path) with n_runs := executed in the call
-// recorded by o. Sub graph references point forward.
-func coqStepForest(F []Graph, o CallObs) string {
-	ran := ranSet(o)
-	var gs []string
-	var rec func(gi int, pre []int, depth int) int
-	rec = func(gi int, pre []int, depth int) int {
-		idx := len(gs)
-		gs = append(gs, "")
-		ns := make([]string, len(F[gi].Nodes))
-		for j, nd := range F[gi].Nodes {
-			p := append(append([]int{}, pre...), nd.Key)
-			kind := lib.CoqApp("KComp", lib.CoqN(uint64(nd.ty())))
-			if nd.Kind == "sub" {
-				if depth+1 > len(F) {
-					kind = lib.CoqApp("KSub", lib.CoqNat(1<<20)) // ill-formed forest: the model reports E_GRAPH
-				} else {
-					kind = lib.CoqApp("KSub", lib.CoqNat(rec(nd.Sub, p, depth+1)))
-				}
-			}
-			ns[j] = lib.CoqApp("mkNode", lib.CoqN(uint64(nd.Key)), kind, lib.CoqBool(nd.Kind != "pass"), lib.CoqBool(ran[pathName(p)]))
-		}
-		gs[idx] = lib.CoqList(ns)
-		return idx
-	}
-	rec(0, nil, 0)
-	return lib.CoqList(gs)
-}
-
-// coqResumeCase: CaseR [(forest of the call, call, observation); ...] over the executed calls
+// coqResumeCase: CaseR forest [(checkpoint the call was entered with, call, observation); ...]
+// over the executed calls. The forest is the case's forest as it is: which nodes executed in
+// which call is part of the observation (one entry per executed node), not of the model's input.
 func coqResumeCase(c *Case, obs []CallObs) string {
 	var steps []string
 	for i, o := range obs {
 		if o.Class == "unused" {
 			continue
 		}
-		steps = append(steps, lib.CoqPair(lib.CoqPair(lib.CoqPair(coqStepForest(c.Forest, o), coqCk(o.Ck)), coqCall(c.Calls[i])), coqObs(o)))
+		steps = append(steps, lib.CoqPair(lib.CoqPair(coqCk(o.Ck), coqCall(c.Calls[i])), coqObs(o)))
 	}
-	return lib.CoqApp("CaseR", lib.CoqList(steps))
+	return lib.CoqApp("CaseR", coqForest(c.Forest), lib.CoqList(steps))
 }
 
 // judgeSession: what must hold of the session as a whole for the per-call comparison to mean
